@@ -300,6 +300,18 @@ Definition route_in_x (b : builder) (c : cfg) (g : group) (r : xrow) : option sh
       end
   end.
 
+(* routeAndCalculateStreamRows, cases 2 and 3 ("same distribution"): the shard of the stream's DESTINATION measurement is chosen
+   by updateShardGroupAndShardKey(.., stream = true, reuseShardKey = true) with the bytes already built for the SOURCE row
+   (hash sharding): the destination's index list, the source's key bytes *)
+Definition route_reuse (csrc cdst : cfg) (g : group) (p : point) : option shard :=
+  match wkey csrc p with
+  | None => None
+  | Some ps => match c_typ cdst with
+               | Hash => shard_for cdst (hash (hash_arg csrc ps)) g
+               | Range => None
+               end
+  end.
+
 (* the write path on a catalogue in which the group for the timestamp exists (after CreateShardGroup) *)
 Definition route (c : cfg) (p : point) : option (group * shard) :=
   match find_group (c_groups c) (p_time p) with
